@@ -45,6 +45,7 @@ fn run_replay(job: &Value) {
     let extras: Vec<String> = job["extras"].as_array().map(|a| a.iter().filter_map(|x| x.as_str().map(String::from)).collect()).unwrap_or_default();
     let samples: Vec<Vec<String>> = job["samples"].as_array().map(|a| a.iter().map(|s| s.as_array().unwrap().iter().map(|k| k.as_str().unwrap().to_string()).collect()).collect()).unwrap_or_default();
     let thorough = job["tier"].as_str() == Some("thorough");
+    let nsuffix = job["reject_suffixes"].as_u64().unwrap_or(0) as usize;
     let mut rng = Rng(job["seed"].as_u64().unwrap_or(1).wrapping_mul(0x9E3779B97F4A7C15) ^ shard);
     let file = std::io::BufReader::new(std::fs::File::open(job["beh"].as_str().unwrap()).unwrap());
     for (i, line) in file.lines().enumerate() {
@@ -54,9 +55,11 @@ fn run_replay(job: &Value) {
         let bv: Value = match serde_json::from_str(&line) { Ok(x) => x, Err(_) => continue };
         out.heartbeat(i);
         out.stats.items += 1;
+        if bv.get("chars").is_some() { replay_string(&mut out, &e, &bv, &phs, i); continue; }
         let b = parse_beh(&bv);
         if !b.kinds.iter().all(|k| k == "bad" || v.has_kind(&e, k)) { continue; }
         let used = replay_base(&mut out, &v, &e, &b, &pols, &phs, min_ops);
+        if nsuffix > 0 { replay_reject_suffixes(&mut out, &v, &e, &b, &pols[0], &mut rng, nsuffix); }
         for (k, (r, outs)) in used.iter().enumerate() {
             if extras.iter().any(|x| x == "jux") { meta::jux(&mut out, &e, &b, r, outs); }
             if extras.iter().any(|x| x == "spellings") { meta::spellings(&mut out, &v, &e, &b, r, outs, &pols[k.min(pols.len() - 1)], &mut rng, thorough); }
